@@ -6,6 +6,7 @@ import (
 	"fmt"
 	"math"
 	"sort"
+	"strings"
 
 	"github.com/paulmach/orb"
 	"github.com/paulmach/orb/clip"
@@ -99,6 +100,7 @@ type genFn struct {
 }
 
 var genBox = orb.Bound{Min: orb.Point{0.5, 0.5}, Max: orb.Point{2.5, 1.5}}
+var genWide = orb.Bound{Min: orb.Point{-0.5, -0.5}, Max: orb.Point{8.5, 8.5}}
 
 func unwrapMP(mp orb.MultiPolygon) orb.Geometry {
 	if mp == nil {
@@ -145,6 +147,49 @@ func simplifierFns(name string, mk func() orb.Simplifier) genFn {
 				return gvGeom(nilIfEmpty(len(r), r)), true
 			case orb.Collection:
 				r := s.Collection(v)
+				return gvGeom(nilIfEmpty(len(r), r)), true
+			}
+			return nil, false
+		}}
+}
+
+// clipFn is the generic clip against a box with its kind-specific counterparts.
+func clipFn(name string, box orb.Bound) genFn {
+	return genFn{name: name, mut: true, gen: func(g orb.Geometry) genVal { return gvGeom(clip.Geometry(box, g)) },
+		typed: func(g orb.Geometry) (genVal, bool) {
+			if g == nil || !box.Intersects(g.Bound()) {
+				return nil, false
+			}
+			switch v := g.(type) {
+			case orb.MultiPoint:
+				r := clip.MultiPoint(box, v)
+				if len(r) == 1 {
+					return gvGeom(r[0]), true
+				}
+				return gvGeom(nilIfEmpty(len(r), r)), true
+			case orb.LineString:
+				r := clip.LineString(box, v)
+				if len(r) == 1 {
+					return gvGeom(r[0]), true
+				}
+				return gvGeom(nilIfEmpty(len(r), r)), true
+			case orb.MultiLineString:
+				r := clip.MultiLineString(box, v)
+				if len(r) == 1 {
+					return gvGeom(r[0]), true
+				}
+				return gvGeom(nilIfEmpty(len(r), r)), true
+			case orb.Ring:
+				r := clip.Ring(box, v)
+				return gvGeom(nilIfEmpty(len(r), r)), true
+			case orb.Polygon:
+				r := clip.Polygon(box, v)
+				return gvGeom(nilIfEmpty(len(r), r)), true
+			case orb.MultiPolygon:
+				r := clip.MultiPolygon(box, v)
+				if len(r) == 1 {
+					return gvGeom(r[0]), true
+				}
 				return gvGeom(nilIfEmpty(len(r), r)), true
 			}
 			return nil, false
@@ -205,45 +250,10 @@ var genFns = []genFn{
 			}
 			return nil, false
 		}},
-	{name: "clip.Geometry", mut: true, gen: func(g orb.Geometry) genVal { return gvGeom(clip.Geometry(genBox, g)) },
-		typed: func(g orb.Geometry) (genVal, bool) {
-			if g == nil || !genBox.Intersects(g.Bound()) {
-				return nil, false
-			}
-			switch v := g.(type) {
-			case orb.MultiPoint:
-				r := clip.MultiPoint(genBox, v)
-				if len(r) == 1 {
-					return gvGeom(r[0]), true
-				}
-				return gvGeom(nilIfEmpty(len(r), r)), true
-			case orb.LineString:
-				r := clip.LineString(genBox, v)
-				if len(r) == 1 {
-					return gvGeom(r[0]), true
-				}
-				return gvGeom(nilIfEmpty(len(r), r)), true
-			case orb.MultiLineString:
-				r := clip.MultiLineString(genBox, v)
-				if len(r) == 1 {
-					return gvGeom(r[0]), true
-				}
-				return gvGeom(nilIfEmpty(len(r), r)), true
-			case orb.Ring:
-				r := clip.Ring(genBox, v)
-				return gvGeom(nilIfEmpty(len(r), r)), true
-			case orb.Polygon:
-				r := clip.Polygon(genBox, v)
-				return gvGeom(nilIfEmpty(len(r), r)), true
-			case orb.MultiPolygon:
-				r := clip.MultiPolygon(genBox, v)
-				if len(r) == 1 {
-					return gvGeom(r[0]), true
-				}
-				return gvGeom(nilIfEmpty(len(r), r)), true
-			}
-			return nil, false
-		}},
+	clipFn("clip.Geometry", genBox),
+	// the same against a box that holds every generated shape: nothing to cut, and still the kind-specific answer
+	// (empty members dropped, rings closed the way the typed function leaves them)
+	clipFn("clip.Geometry.wide", genWide),
 	{name: "smartclip.Geometry", mut: true, gen: func(g orb.Geometry) genVal { return gvGeom(smartclip.Geometry(genBox, g, orb.CCW)) },
 		typed: func(g orb.Geometry) (genVal, bool) {
 			switch v := g.(type) {
@@ -352,7 +362,7 @@ func c20Run(c *ctx, g orb.Geometry) {
 		spareOk := func() bool { return true }
 		mut := f.mut
 		e["ro"] = 0
-		if _, isMP := g.(orb.MultiPoint); isMP && f.name == "clip.Geometry" {
+		if _, isMP := g.(orb.MultiPoint); isMP && strings.HasPrefix(f.name, "clip.Geometry") {
 			// clip documents that only 1-d and 2-d input is used as scratch space; MultiPoint "returns a new set"
 			mut = false
 			e["ro"] = 1
